@@ -117,6 +117,9 @@ func (o Op) String() string {
 			}
 			return "update[" + strings.Join(ms, ",") + "]"
 		}
+		if o.Flag == 2 {
+			return fmt.Sprintf("update(directory %q,%o)", o.A, o.Perm)
+		}
 		return fmt.Sprintf("update(%q,%d %s)", o.A, o.Len, o.Dist)
 	default:
 		return fmt.Sprintf("%s(%q)", o.K, o.A)
@@ -371,6 +374,9 @@ func execOp(rig *Rig, o Op) Outcome {
 			mt = time.Unix(o.Mt, 0)
 		}
 		ums := []config.FileConfig{staleMember(o.A, o.content(), os.FileMode(o.Perm), mt, o.N)}
+		if o.Flag == 2 {
+			ums = []config.FileConfig{dirMember(o.A, os.FileMode(o.Perm), mt)}
+		}
 		for _, m := range o.Members {
 			m := m
 			fc := fileMember(m.A, m.content(), os.FileMode(m.Perm), mt)
@@ -599,6 +605,9 @@ func applyModel(m *Model, o Op) (MOut, Outcome) {
 		n, mo := m.lookup(o.A)
 		if n == nil {
 			return mo, Outcome{}
+		}
+		if o.Flag == 2 && !n.Dir {
+			return fail("not a directory"), Outcome{}
 		}
 		if o.Len > 0 {
 			n.Data = o.content()
